@@ -86,6 +86,10 @@ func (srv *Server) ListenAndServe() error {
 	// After Close, whatever an acceptor reported while it was being shut down (the cancelled
 	// context, or the error of a listener that had just been closed) is the graceful case.
 	if srvCtx.Err() != nil || errors.Is(err, ctx.Err()) {
+		// Close may have run before some listener was started: none is left open
+		for _, l := range srv.listeners {
+			_ = l.Listener.Close()
+		}
 		return ErrServerClosed
 	}
 	return err
